@@ -14,6 +14,32 @@ def check(ctx):
     ctx.kani('autosar-data', specs)
     ctx.kani('autosar-data-specification', [dict(name='version_roundtrip_each', module='autosarversion', kind='complete', timeout=300, covers_optional=True,
                                                  desc='AutosarVersion::compatible(mask) <=> mask contains the version bit, for every declared version')])
+    # API-level bounded check of the statement itself on documents generated from the specification (native)
+    import re
+    from vxlib.common import Obligation, run
+    b = ctx.native()
+    ndocs = '1000000' if ctx.tier == 'thorough' else '30000'
+    rc, out, err, secs = run([b, 'api', 'compat', ndocs, 'survey'], timeout=3000)
+    ctx.t('native-enum', secs)
+    lines = out.strip().splitlines()
+    last = lines[-1] if lines else ''
+    name = 'native/api-version-compat'
+    bound = 'documents generated from the specification: one minimal document per version-dependent sub-element / attribute / attribute value / character-data value found by a breadth-first walk from ElementType::ROOT (budget %s candidates), each checked against all declared target versions' % ndocs
+    fails = [l for l in lines if l.startswith('FAIL')]
+    if not (last.startswith('OK') or last.startswith('SURVEY')):
+        ctx.undecided.append('%s: no result (rc=%s) %s' % (name, rc, (out + err)[-300:]))
+    else:
+        for k, l in enumerate(fails[:25]):
+            msg, _, dochex = l[5:].partition(' :: document ')
+            mt = re.search(r'target (AUTOSAR_[0-9-]+\.xsd)', msg)
+            ob = ctx.add(Obligation(ctx.prop, '%s#%d' % (name, k), 'native-eval', 'bounded', 'failed', seconds=secs, bound=bound, detail=msg))
+            ob.witness = dict(input_hex=dochex.strip(), input_text=bytes.fromhex(dochex.strip()).decode('utf-8', 'replace'), observed=msg,
+                              via='public API: ArxmlFile::check_version_compatibility / set_version vs strict load_buffer of the relabelled text',
+                              replay=['api', 'compat1', dochex.strip(), mt.group(1) if mt else 'AUTOSAR_00053.xsd'])
+            ctx._record_violation(ob)
+        if not fails or all(o.detail.startswith('KNOWN FINDING') for o in ctx.obligations if o.name.startswith(name + '#')):
+            ctx.add(Obligation(ctx.prop, name, 'native-eval', 'bounded', 'discharged', seconds=secs, bound=bound,
+                               detail='check_version_compatibility lists nothing <=> relabelled text loads strictly <=> mask contains the target <=> set_version succeeds (and then alters nothing) [%s]%s' % (last, ' -- except the recorded known finding(s)' if fails else '')))
     return ctx.finish(
         explanation='Verus proves on the real text of CharacterData::check_version_compatibility, check_value, parse and AutosarVersion::compatible, for every value, every spec (enumerations of any length) and every declared version: the check reports no incompatibility exactly when the value is valid for the spec relabelled with the target version, and for enum values the returned mask is the spec mask of the value (0 if unlisted) and contains the target exactly in that case. One of the three mechanisms of the property is pure and under contract: the value-level compatibility function. A loop-free Kani harness over all kinds, all declared versions and symbolic enum specs discharges: ok <=> target version in the returned mask (enum data, enum spec), the mask is the spec mask of the value, unknown value => (false, 0), non-enum spec => compatible with everything, and agreement with the validator rule (check_value for the relabelled version). The recursive walk over the element tree (Element::check_version_compatibility, recalc_element_type) and the gate ArxmlFile::set_version take element locks and are not reachable by either verifier (DESIGN F3); they are not covered.',
         checker_cmd='verus generated/chardata.rs; cargo kani --harness version_compat_all; cargo kani --harness version_roundtrip_each',
